@@ -1054,7 +1054,7 @@ CLAUSES = [
     Clause('wrap_exact', oracle_wrap_exact, wrap_exact_cases, quick=2400, thorough=50000,
            min_share={'exact': 0.5, 'nt': 0.35, 'onface': 0.4, 'far': 0.3, 'pbc3': 0.1, 'mixed_pbc': 0.3,
                       'hist': 0.25, 'pbc_changed': 0.15, 'pbc_inplace': 0.08, 'inplace_toggled_out': 0.07, 'forms': 0.35,
-                      'pos_int': 0.08, 'pos_int_not64': 0.05, 'pos_int_narrow': 0.025, 'pos_int_unsigned': 0.02, 'pos_int_bool': 0.008, 'pos_float32': 0.025},
+                      'pos_int': 0.08, 'pos_int_not64': 0.05, 'pos_int_narrow': 0.025, 'pos_int_unsigned': 0.02, 'pos_int_bool': 0.008, 'pos_float32': 0.02},
            desc='wrap on exactly representable inputs (atoms exactly on faces, far outside): zero tolerance, zero band on periodic axes; after exactness-preserving histories'),
     Clause('normalize', oracle_normalize, normalize_cases, quick=4000, thorough=100000,
            min_share={'nt': 0.35, 'lefthanded': 0.2, 'rotated': 0.2, 'tilted': 0.3, 'pairs': 0.35, 'transform_returned': 0.3,
